@@ -132,8 +132,10 @@ impl TargetWatcher {
 }
 
 fn is_tmp_editor_file(file_path: &Path) -> bool {
-    let file_name = file_path.file_name().unwrap();
-    let file_name = file_name.to_str().unwrap();
+    let file_name = match file_path.file_name() {
+        Some(file_name) => file_name.to_string_lossy(),
+        None => return false,
+    };
 
     if file_name.ends_with('~') {
         return true; // IntelliJ IDEA
